@@ -12,7 +12,7 @@ CHECKS['C19'] = dict(
          'Oracle: the last letter must give exactly what it gives alone in a fresh interpreter (one subprocess per letter and caching mode, cross-checked '
          'against the in-process reset), earlier returned objects rendered again at the end must be unchanged, and every Adj-RIB-In must equal a dict model '
          'folded from the alone effects. Process-wide state is found by a reflective scan of all loaded exabgp modules plus a calibration run, not listed by hand. '
-         'Exhaustive inside the bound: the right level for a property that quantifies over histories on shared caches.',
+         'Exhaustive inside the bound: the right level for a property that quantifies over histories on shared caches. The alphabet holds a withdrawal that carries the shared attribute block (no NLRI field).',
     note='Trusted: vt/ref/wire.py encoder; the alphabet; the reflective scan (module globals/class attributes, depth 4) as the definition of process-wide state '
          '(any other root changing aborts the run); prefix checkpointing (every 97th prefix is re-executed sequence by sequence from a reset and compared).',
 )
